@@ -70,6 +70,8 @@ def frame(cells, cost, n, T, C, cost_pre=None, cost_ctl=None):
         cc = cost_ctl[d]
     if per == 2:
       ct = cost.get(d, 0.0)
+      if cost_ctl is not None:
+        cc = cost_ctl.get(d, 0.0)
     rows.append(dict(date=dates[d], geo=1, group=1, period=per,
                      response=cells['x', d], cost=cc))
     rows.append(dict(date=dates[d], geo=2, group=2, period=per,
